@@ -12,6 +12,7 @@ package otelcol
 import (
 	"context"
 	"fmt"
+	"sync"
 	"testing"
 	"time"
 
@@ -95,6 +96,10 @@ func vConfMap(topo vTopo, specs []vExtSpec, rng *vRand) map[string]any {
 func TestVerifC10Otelcol(t *testing.T) {
 	out := vOpen()
 	defer out.Close()
+	rrng := vNewRand(1016)
+	for i := 0; i < vBudget(120, 10); i++ {
+		vReloadRun(out, rrng)
+	}
 	rng := vNewRand(1013)
 	ntopo := vBudget(7, 10)
 	for ti := 0; ti < ntopo; ti++ {
@@ -276,4 +281,312 @@ func TestVerifC10Otelcol(t *testing.T) {
 			}
 		}
 	}
+}
+
+// ---- configuration reloads (case kind 6) ---------------------------------------------------------
+// One Collector.Run over a SEQUENCE of configurations: the in-memory provider signals a change
+// (confmap.WatcherFunc), the collector runs reloadConfiguration (Shutdown of the retiring service,
+// set-up of a new one — new component instances: one generation per configuration), ... until a
+// reload fails or the harness requests a shutdown.  Every generation has its own topology, extension
+// set and failing calls: the retiring service's Shutdown fails (Run returns), the new service's
+// Start fails (it is shut down, Run returns), several successful reloads in a row.
+// Direct oracle, PER GENERATION: vCase.oracle (exactly one Shutdown of every component of every
+// service that was built, order constraints, ...), never-built generations have no events, the
+// generations' events do not interleave (retiring service completely down before the next starts).
+type vGen struct {
+	topo                     vTopo
+	specs                    []vExtSpec
+	idOf                     map[string]int
+	comps, exts, cfgw, pipew []int
+	edges, deps              [][2]int
+	pl                       vFaults
+	w                        *vWorld
+	conf                     map[string]any
+}
+
+func vMkGen(rng *vRand) *vGen {
+	g := &vGen{topo: vGenTopo(rng, true), specs: vGenExts(rng, 3, true), idOf: map[string]int{}, w: &vWorld{}}
+	keys, sedges := g.topo.specEdges(false)
+	for i, k := range keys {
+		g.idOf[k] = i
+		g.comps = append(g.comps, i)
+	}
+	for _, e := range sedges {
+		g.edges = append(g.edges, [2]int{g.idOf[e[0]], g.idOf[e[1]]})
+	}
+	for _, s := range g.specs {
+		g.exts = append(g.exts, s.idx)
+		for _, d := range s.deps {
+			g.deps = append(g.deps, [2]int{d, s.idx})
+		}
+		if s.cfgW {
+			g.cfgw = append(g.cfgw, s.idx)
+		}
+		if s.pw {
+			g.pipew = append(g.pipew, s.idx)
+		}
+	}
+	g.conf = vConfMap(g.topo, g.specs, rng)
+	g.w.onComp = func(c *vComp) {
+		if i, ok := g.idOf[c.key]; ok {
+			c.idx = i
+			c.failStart, c.failStop = vHas(g.pl.fcStart, i), vHas(g.pl.fcStop, i)
+		}
+	}
+	g.w.onExt = func(e *vExtBase) {
+		e.failStart, e.failStop = vHas(g.pl.fxStart, e.idx), vHas(g.pl.fxStop, e.idx)
+		e.failCfg, e.failReady, e.failNotReady = vHas(g.pl.fCfg, e.idx), vHas(g.pl.fReady, e.idx), vHas(g.pl.fNotReady, e.idx)
+	}
+	return g
+}
+
+// vReloadProvider serves configuration number min(calls, last) and remembers the watcher.
+type vReloadProvider struct {
+	mu      sync.Mutex
+	confs   []map[string]any
+	calls   int
+	watcher confmap.WatcherFunc
+}
+
+func (p *vReloadProvider) Retrieve(_ context.Context, _ string, w confmap.WatcherFunc) (*confmap.Retrieved, error) {
+	p.mu.Lock()
+	defer p.mu.Unlock()
+	i := p.calls
+	if i >= len(p.confs) {
+		i = len(p.confs) - 1
+	}
+	p.calls++
+	p.watcher = w
+	return confmap.NewRetrieved(p.confs[i])
+}
+func (p *vReloadProvider) Scheme() string                 { return "vmem" }
+func (p *vReloadProvider) Shutdown(context.Context) error { return nil }
+
+// how a generation's failing calls are chosen: the kind of the reload scenario
+func vReloadPlans(rng *vRand, gens []*vGen) string {
+	last := len(gens) - 1
+	sub := func(l []int, pct int) []int {
+		var r []int
+		for _, x := range l {
+			if rng.Intn(100) < pct {
+				r = append(r, x)
+			}
+		}
+		return r
+	}
+	one := func(l []int) []int {
+		if len(l) == 0 {
+			return nil
+		}
+		return []int{l[rng.Intn(len(l))]}
+	}
+	switch rng.Pick(3, 4, 3, 2, 2) {
+	case 0: // the new service's component Start fails
+		gens[last].pl.fcStart = one(gens[last].comps)
+		gens[last].pl.fcStop = sub(gens[last].comps, 20)
+		return "new-component-start-fails"
+	case 1: // all reloads succeed; the last service may report shutdown errors
+		gens[last].pl.fcStop = sub(gens[last].comps, 30)
+		gens[last].pl.fxStop = sub(gens[last].exts, 30)
+		return "reloads-succeed"
+	case 2: // a retiring service's Shutdown returns an error: Run returns, the next generation is never built
+		j := rng.Intn(last)
+		if rng.Bool() || len(gens[j].exts) == 0 {
+			gens[j].pl.fcStop = one(gens[j].comps)
+		} else {
+			gens[j].pl.fxStop = one(gens[j].exts)
+		}
+		return "retiring-shutdown-fails"
+	case 3: // the new service's extension Start / notification fails
+		g := gens[last]
+		switch {
+		case len(g.exts) > 0 && rng.Bool():
+			g.pl.fxStart = one(g.exts)
+		case len(g.cfgw) > 0:
+			g.pl.fCfg = one(g.cfgw)
+		case len(g.pipew) > 0:
+			g.pl.fReady = one(g.pipew)
+		default:
+			g.pl.fcStart = one(g.comps)
+		}
+		return "new-extension-or-notify-fails"
+	default: // random mix in every generation
+		for _, g := range gens {
+			g.pl.fcStart = sub(g.comps, 5)
+			g.pl.fcStop = sub(g.comps, 15)
+			g.pl.fxStop = sub(g.exts, 15)
+			g.pl.fNotReady = sub(g.pipew, 30)
+		}
+		return "random"
+	}
+}
+
+func vReloadRun(out *vOut, rng *vRand) {
+	ngen := 2 + rng.Pick(5, 3, 1)
+	var gens []*vGen
+	prov := &vReloadProvider{}
+	for j := 0; j < ngen; j++ {
+		g := vMkGen(rng)
+		gens = append(gens, g)
+		prov.confs = append(prov.confs, g.conf)
+	}
+	scenario := vReloadPlans(rng, gens)
+	// one global sequence over all generations: every event is stamped
+	var seqMu sync.Mutex
+	var seq []int // generation of each event, in global order
+	for j, g := range gens {
+		j := j
+		g.w.onAdd = func() {
+			seqMu.Lock()
+			seq = append(seq, j)
+			seqMu.Unlock()
+		}
+	}
+	var fmu sync.Mutex
+	fcalls := 0
+	set := CollectorSettings{
+		BuildInfo: component.NewDefaultBuildInfo(),
+		Factories: func() (Factories, error) {
+			fmu.Lock()
+			j := fcalls
+			fcalls++
+			fmu.Unlock()
+			if j >= len(gens) {
+				j = len(gens) - 1
+			}
+			g := gens[j]
+			return Factories{
+				Receivers:  map[component.Type]receiver.Factory{vRecvType: g.w.recvFactory()},
+				Processors: map[component.Type]processor.Factory{vProcType: g.w.procFactory()},
+				Exporters:  map[component.Type]exporter.Factory{vExpType: g.w.expFactory()},
+				Connectors: map[component.Type]connector.Factory{vConnType: g.w.connFactory()},
+				Extensions: map[component.Type]extension.Factory{vExtType: g.w.extFactory(g.specs)},
+			}, nil
+		},
+		ConfigProviderSettings: ConfigProviderSettings{ResolverSettings: confmap.ResolverSettings{
+			URIs: []string{"vmem:x"},
+			ProviderFactories: []confmap.ProviderFactory{confmap.NewProviderFactory(func(confmap.ProviderSettings) confmap.Provider {
+				return prov
+			})},
+		}},
+		LoggingOptions:          []zap.Option{zap.WrapCore(func(zapcore.Core) zapcore.Core { return zapcore.NewNopCore() })},
+		SkipSettingGRPCLogger:   true,
+		DisableGracefulShutdown: true,
+	}
+	col, err := NewCollector(set)
+	if err != nil {
+		out.Oracle("harness", "(6, ([], []))", "NewCollector: "+err.Error())
+		return
+	}
+	done := make(chan error, 1)
+	go func() { done <- col.Run(context.Background()) }()
+	var errAll error
+	finished := false
+	running := 0 // generations seen Running so far
+	deadline := time.Now().Add(60 * time.Second)
+	for !finished {
+		select {
+		case errAll = <-done:
+			finished = true
+		default:
+			fmu.Lock()
+			fc := fcalls
+			fmu.Unlock()
+			// generation `running` is up when its factories were requested and the collector is Running
+			if fc == running+1 && col.GetState() == StateRunning {
+				running++
+				if running < ngen {
+					prov.mu.Lock()
+					wf := prov.watcher
+					prov.mu.Unlock()
+					go wf(&confmap.ChangeEvent{}) // configuration changed: reload
+				} else {
+					col.Shutdown()
+				}
+			}
+			if time.Now().After(deadline) {
+				out.Oracle("harness", "(6, ([], []))", "Collector.Run with reloads did not return within 60 s")
+				finished = true
+			}
+			time.Sleep(200 * time.Microsecond)
+		}
+	}
+	// per generation case + oracle
+	var cases []*vCase
+	lastBuilt := -1
+	for j, g := range gens {
+		g.w.mu.Lock()
+		log := append([][2]int{}, g.w.log...)
+		ret := g.w.ret
+		nc, bad := len(g.w.comps), 0
+		for _, c := range g.w.comps {
+			if c.idx < 0 {
+				bad++
+			}
+		}
+		g.w.mu.Unlock()
+		if ret == nil {
+			ret = map[[2]int]bool{}
+		}
+		c := &vCase{kind: 2, comps: g.comps, exts: g.exts, cfgw: g.cfgw, pipew: g.pipew, edges: g.edges, specEdges: g.edges,
+			deps: g.deps, hasConf: true, fxStart: g.pl.fxStart, fxStop: g.pl.fxStop, fcStart: g.pl.fcStart, fcStop: g.pl.fcStop,
+			fCfg: g.pl.fCfg, fReady: g.pl.fReady, fNotReady: g.pl.fNotReady, log: log, ret: ret}
+		cases = append(cases, c)
+		if nc == 0 && len(log) == 0 {
+			continue // never built
+		}
+		lastBuilt = j
+		if nc != len(g.comps) || bad > 0 {
+			out.Oracle("graph-edges", c.term(), fmt.Sprintf("generation %d: %d component instances (%d unexpected), configuration implies %d", j, nc, bad, len(g.comps)))
+		}
+		nStart := len(log)
+		for i, e := range log {
+			if e[0] == tNotReady || e[0] == tCStop || e[0] == tXStop {
+				nStart = i
+				break
+			}
+		}
+		c.extOrder = vRev(vSeq(log[nStart:], tXStop))
+		started := vSeq(log[:nStart], tCStart)
+		var unstarted []int
+		for _, n := range g.comps {
+			if !vHas(started, n) {
+				unstarted = append(unstarted, n)
+			}
+		}
+		c.startOrder, _ = vComplete(g.comps, g.edges, vRev(started), unstarted)
+		c.stopOrder, _ = vComplete(g.comps, g.edges, vSeq(log[nStart:], tCStop), nil)
+	}
+	if lastBuilt >= 0 {
+		cases[lastBuilt].errs = vErrList(errAll)
+	}
+	term := vReloadTerm(cases)
+	for j, c := range cases {
+		if j > lastBuilt {
+			continue
+		}
+		// the property, per service that was built (errors: only the last one's are returned by Run)
+		cc := *c
+		if j < lastBuilt {
+			// an earlier generation retired without error, or Run would have returned there
+			cc.errs = nil
+		}
+		cc.oracleWithTerm(out, term, fmt.Sprintf("generation %d: ", j))
+	}
+	// generations do not interleave
+	for i := 1; i < len(seq); i++ {
+		if seq[i] < seq[i-1] {
+			out.Oracle("reload-order", term, fmt.Sprintf("an event of generation %d after an event of generation %d", seq[i], seq[i-1]))
+			break
+		}
+	}
+	if (errAll != nil) != (lastBuilt >= 0 && len(cases[lastBuilt].errs) > 0) {
+		out.Oracle("start-failure", term, fmt.Sprintf("unexpected error from Run: %v", errAll))
+	}
+	// (the collector's own State is not part of this property: after a FAILED reload the pinned
+	// tree leaves it at Closing / Starting when Run returns; recorded as a histogram only)
+	out.Stat(fmt.Sprintf("state-after-run=%v", col.GetState()), 1)
+	out.Case(true, term)
+	out.Stat("reload="+scenario, 1)
+	out.Stat(fmt.Sprintf("reload-generations-built=%d-of-%d", lastBuilt+1, ngen), 1)
 }
